@@ -381,7 +381,7 @@ func decodedImmutable(c *Ctx, rule string) {
 	}
 	nA, nB := scan(c.P.LibFns, true)
 	c.count(rule+"/allowed-writers", nA)
-	c.floor(rule+"/allowed-writers", 8)
+	c.floor(rule+"/allowed-writers", 5)
 	if nB == 0 {
 		c.ok(rule, "library", "no other store into decoded objects", "-", fmt.Sprintf("%d library functions scanned, %d enumerated validator stores", len(c.P.LibFns), nA))
 	}
@@ -390,4 +390,29 @@ func decodedImmutable(c *Ctx, rule string) {
 	if fired == 0 {
 		c.bad(rule, "controls/hdrwrite", "positive control", "-", "matcher did not flag the control that rewrites Response.Issuer")
 	}
+}
+
+// unreachable: an unexported function (or closure of one) that nothing in the module calls or takes the value of,
+// transitively.
+func (p *Prog) unreachable(fn *ssa.Function) bool {
+	return p.unreachableRec(fn, map[*ssa.Function]bool{})
+}
+
+func (p *Prog) unreachableRec(fn *ssa.Function, seen map[*ssa.Function]bool) bool {
+	if fn == nil || seen[fn] {
+		return true
+	}
+	seen[fn] = true
+	if fn.Parent() != nil {
+		return p.unreachableRec(fn.Parent(), seen)
+	}
+	if fn.Object() == nil || fn.Object().Exported() || fn.Name() == "init" || fn.Name() == "main" {
+		return false
+	}
+	for c := range p.callerIndex()[fn] {
+		if !p.unreachableRec(c, seen) {
+			return false
+		}
+	}
+	return true
 }
